@@ -29,10 +29,12 @@ struct KI {   // set element: ordered / hashed / key-compared by k only, so equi
 };
 struct KLess { bool operator()(const KI& a, const KI& b) const { return a.k < b.k; } };
 struct KEq { bool operator()(const KI& a, const KI& b) const { return a.k == b.k; } };
+// hash distributions: 0 = std::hash (identity), 1 = constant, 2 = only high bits vary (low 24 bits zero), 3 = four classes
+static size_t hmix(int mode, int k) { switch (mode) { case 1: return 7; case 2: return size_t(unsigned(k)) << 24; case 3: return size_t(k & 3); default: return std::hash<int>()(k); } }
 struct KHash { int mode; explicit KHash(int m = 0) : mode(m) {}
-	size_t operator()(const KI& a) const { return mode ? 7 : std::hash<int>()(a.k); } };
+	size_t operator()(const KI& a) const { return hmix(mode, a.k); } };
 struct IHash { int mode; explicit IHash(int m = 0) : mode(m) {}
-	size_t operator()(int a) const { return mode ? 7 : std::hash<int>()(a); } };
+	size_t operator()(int a) const { return hmix(mode, a); } };
 
 // string key/mapped (long enough to defeat SSO), transparent functors for heterogeneous lookup
 static std::string SK(int k) { char b[40]; snprintf(b, sizeof b, "key-with-a-long-prefix-%06d", k + 100000); return b; }
@@ -40,8 +42,8 @@ static std::string SM(int v) { char b[40]; snprintf(b, sizeof b, "val-with-a-lon
 static int SKi(const std::string& s) { return s.size() < 24 ? 0 : atoi(s.c_str() + 23) - 100000; }
 static int SMi(const std::string& s) { return s.size() < 24 ? 0 : atoi(s.c_str() + 23) - 100000; }
 struct SHash { typedef void is_transparent; int mode; explicit SHash(int m = 0) : mode(m) {}
-	size_t operator()(const std::string& a) const { return mode ? 7 : std::hash<std::string>()(a); }
-	size_t operator()(const char* a) const { return mode ? 7 : std::hash<std::string>()(std::string(a)); } };
+	size_t operator()(const std::string& a) const { return mode == 0 ? std::hash<std::string>()(a) : hmix(mode, SKi(a)); }
+	size_t operator()(const char* a) const { return (*this)(std::string(a)); } };
 struct SEq { typedef void is_transparent;
 	bool operator()(const std::string& a, const std::string& b) const { return a == b; }
 	bool operator()(const char* a, const std::string& b) const { return b == a; }
@@ -90,9 +92,13 @@ template<class T> struct PickAlloc<1, T> { typedef SA<T, false, false, false> ty
 template<class T> struct PickAlloc<2, T> { typedef SA<T, true, true, true> type; };
 template<class T> struct PickAlloc<3, T> { typedef SA<T, true, false, true> type; };
 template<class T> struct PickAlloc<4, T> { typedef SA<T, false, true, false> type; };
+template<class T> struct PickAlloc<5, T> { typedef SA<T, true, true, false> type; };
+template<class T> struct PickAlloc<6, T> { typedef SA<T, true, false, false> type; };
+template<class T> struct PickAlloc<7, T> { typedef SA<T, false, true, true> type; };
+template<class T> struct PickAlloc<8, T> { typedef SA<T, false, false, true> type; };
 
 // ------------------------------------------------------------------ container catalogue
-enum Shape { USET, UMAP, UMMAP, OSET, OMSET, OMAP, OMMAP, VEC, SMAP, SUMAP, MOMAP, MOUMAP };
+enum Shape { USET, UMAP, UMMAP, OSET, OMSET, OMAP, OMMAP, VEC, SMAP, SUMAP, MOMAP, MOUMAP, FUSET, FUMAP, FUMMAP };   // F*: int keys with the DEFAULT hash functor (fast-hashable: selects the other bucket classes)
 typedef std::pair<const std::string, std::string> PSS; typedef std::pair<const int, MO> PIM;
 template<Shape S, bool OPEN, int AK> struct Cont;
 typedef std::pair<const int, int> PII;
@@ -109,6 +115,12 @@ template<int AK> struct Cont<OMSET, false, AK> { typedef ns::multiset<KI, KLess,
 template<int AK> struct Cont<OMAP, false, AK> { typedef ns::map<int, int, std::less<int>, typename PickAlloc<AK, PII>::type> type; };
 template<int AK> struct Cont<OMMAP, false, AK> { typedef ns::multimap<int, int, std::less<int>, typename PickAlloc<AK, PII>::type> type; };
 template<int AK> struct Cont<VEC, false, AK> { typedef ns::vector<int, typename PickAlloc<AK, int>::type> type; };
+template<int AK> struct Cont<FUSET, false, AK> { typedef ns::unordered_set<int, momo::HashCoder<int>, std::equal_to<int>, typename PickAlloc<AK, int>::type> type; };
+template<int AK> struct Cont<FUSET, true, AK> { typedef ns::unordered_set_open<int, momo::HashCoder<int>, std::equal_to<int>, typename PickAlloc<AK, int>::type> type; };
+template<int AK> struct Cont<FUMAP, false, AK> { typedef ns::unordered_map<int, int, momo::HashCoder<int>, std::equal_to<int>, typename PickAlloc<AK, PII>::type> type; };
+template<int AK> struct Cont<FUMAP, true, AK> { typedef ns::unordered_map_open<int, int, momo::HashCoder<int>, std::equal_to<int>, typename PickAlloc<AK, PII>::type> type; };
+template<int AK> struct Cont<FUMMAP, false, AK> { typedef ns::unordered_multimap<int, int, momo::HashCoder<int>, std::equal_to<int>, typename PickAlloc<AK, PII>::type> type; };
+template<int AK> struct Cont<FUMMAP, true, AK> { typedef ns::unordered_multimap_open<int, int, momo::HashCoder<int>, std::equal_to<int>, typename PickAlloc<AK, PII>::type> type; };
 template<int AK> struct Cont<SMAP, false, AK> { typedef ns::map<std::string, std::string, std::less<>, typename PickAlloc<AK, PSS>::type> type; };
 template<int AK> struct Cont<SUMAP, false, AK> { typedef ns::unordered_map<std::string, std::string, SHash, SEq, typename PickAlloc<AK, PSS>::type> type; };
 template<int AK> struct Cont<MOMAP, false, AK> { typedef ns::map<int, MO, std::less<int>, typename PickAlloc<AK, PIM>::type> type; };
@@ -123,6 +135,9 @@ template<int AK> struct Cont<OMSET, false, AK> { typedef std::multiset<KI, KLess
 template<int AK> struct Cont<OMAP, false, AK> { typedef std::map<int, int, std::less<int>, typename PickAlloc<AK, PII>::type> type; };
 template<int AK> struct Cont<OMMAP, false, AK> { typedef std::multimap<int, int, std::less<int>, typename PickAlloc<AK, PII>::type> type; };
 template<int AK> struct Cont<VEC, false, AK> { typedef std::vector<int, typename PickAlloc<AK, int>::type> type; };
+template<bool OPEN, int AK> struct Cont<FUSET, OPEN, AK> { typedef std::unordered_set<int, std::hash<int>, std::equal_to<int>, typename PickAlloc<AK, int>::type> type; };
+template<bool OPEN, int AK> struct Cont<FUMAP, OPEN, AK> { typedef std::unordered_map<int, int, std::hash<int>, std::equal_to<int>, typename PickAlloc<AK, PII>::type> type; };
+template<bool OPEN, int AK> struct Cont<FUMMAP, OPEN, AK> { typedef std::unordered_multimap<int, int, std::hash<int>, std::equal_to<int>, typename PickAlloc<AK, PII>::type> type; };
 template<int AK> struct Cont<SMAP, false, AK> { typedef std::map<std::string, std::string, std::less<>, typename PickAlloc<AK, PSS>::type> type; };
 template<int AK> struct Cont<SUMAP, false, AK> { typedef std::unordered_map<std::string, std::string, SHash, SEq, typename PickAlloc<AK, PSS>::type> type; };
 template<int AK> struct Cont<MOMAP, false, AK> { typedef std::map<int, MO, std::less<int>, typename PickAlloc<AK, PIM>::type> type; };
@@ -131,10 +146,12 @@ static const bool isMomo = false;
 #endif
 
 template<Shape S> struct ShapeInfo {
-	static const bool isMap = (S == UMAP || S == UMMAP || S == OMAP || S == OMMAP || S == SMAP || S == SUMAP || S == MOMAP || S == MOUMAP);
-	static const bool isMulti = (S == UMMAP || S == OMSET || S == OMMAP);
+	static const bool isMap = (S == UMAP || S == UMMAP || S == OMAP || S == OMMAP || S == SMAP || S == SUMAP || S == MOMAP || S == MOUMAP || S == FUMAP || S == FUMMAP);
+	static const bool isMulti = (S == UMMAP || S == OMSET || S == OMMAP || S == FUMMAP);
+	static const bool isUMM = (S == UMMAP || S == FUMMAP);
+	static const bool intSet = (S == FUSET);
 	static const bool isOrdered = (S == OSET || S == OMSET || S == OMAP || S == OMMAP || S == SMAP || S == MOMAP);
-	static const bool hasNodes = (S != UMMAP && S != VEC);
+	static const bool hasNodes = (S != UMMAP && S != FUMMAP && S != VEC);
 	static const int ty = (S == SMAP || S == SUMAP) ? 1 : (S == MOMAP || S == MOUMAP) ? 2 : 0;
 };
 
@@ -153,22 +170,23 @@ template<Shape S, bool OPEN, int AK> struct Runner {
 
 	static C* create(int id, int hashMode) {
 		if constexpr (SI::isOrdered) return new C(typename C::key_compare(), AllocInfo<A>::make(id));
+		else if constexpr (S == FUSET || S == FUMAP || S == FUMMAP) return new C(0, typename C::hasher(), typename C::key_equal(), AllocInfo<A>::make(id));
 		else if constexpr (S == SUMAP) return new C(0, SHash(hashMode), SEq(), AllocInfo<A>::make(id));
 		else if constexpr (SI::isMap) return new C(0, IHash(hashMode), std::equal_to<int>(), AllocInfo<A>::make(id));
 		else return new C(0, KHash(hashMode), KEq(), AllocInfo<A>::make(id));
 	}
-	static auto mk(int k, int v) { if constexpr (SI::isMap) return std::pair<typename CD::key, typename CD::mapped>(CD::K(k), CD::M(v)); else return KI(k, v); }
-	static auto mkKey(int k) { if constexpr (SI::isMap) return CD::K(k); else return KI(k, 0); }
-	template<class R> static std::string es(const R& r) { if constexpr (SI::isMap) return E2S(CD::ki(r.first), CD::mi(r.second)); else return E2S(r.k, r.id); }
-	template<class R> static int keyOf(const R& r) { if constexpr (SI::isMap) return CD::ki(r.first); else return r.k; }
+	static auto mk(int k, int v) { if constexpr (SI::isMap) return std::pair<typename CD::key, typename CD::mapped>(CD::K(k), CD::M(v)); else if constexpr (SI::intSet) return k; else return KI(k, v); }
+	static auto mkKey(int k) { if constexpr (SI::isMap) return CD::K(k); else if constexpr (SI::intSet) return k; else return KI(k, 0); }
+	template<class R> static std::string es(const R& r) { if constexpr (SI::isMap) return E2S(CD::ki(r.first), CD::mi(r.second)); else if constexpr (SI::intSet) return E2S(r, 0); else return E2S(r.k, r.id); }
+	template<class R> static int keyOf(const R& r) { if constexpr (SI::isMap) return CD::ki(r.first); else if constexpr (SI::intSet) return r; else return r.k; }
 	template<class It> std::string pos(const C& x, It it) {
 		if constexpr (SI::isOrdered) return std::to_string(std::distance(x.begin(), typename C::const_iterator(it)));
 		else { if (typename C::const_iterator(it) == x.end()) return "end";
-			if constexpr (S == UMMAP) return std::to_string((*it).first);   // which of several equivalent pairs: unspecified by std
+			if constexpr (SI::isUMM) return std::to_string((*it).first);   // which of several equivalent pairs: unspecified by std
 			else return es(*it); } }
 	std::string dump(const C& x) {
 		std::vector<std::pair<int, int>> v;
-		for (auto it = x.begin(); it != x.end(); ++it) { if constexpr (SI::isMap) v.emplace_back(CD::ki((*it).first), CD::mi((*it).second)); else v.emplace_back((*it).k, (*it).id); }
+		for (auto it = x.begin(); it != x.end(); ++it) { if constexpr (SI::isMap) v.emplace_back(CD::ki((*it).first), CD::mi((*it).second)); else if constexpr (SI::intSet) v.emplace_back(*it, 0); else v.emplace_back((*it).k, (*it).id); }
 		if (!SI::isOrdered) std::sort(v.begin(), v.end());
 		std::string s = "[";
 		for (size_t i = 0; i < v.size(); ++i) s += (i ? "," : "") + E2S(v[i].first, v[i].second);
@@ -180,14 +198,16 @@ template<Shape S, bool OPEN, int AK> struct Runner {
 	}
 	template<class N> std::string nodeStr(const N& n) {
 		if (n.empty()) return "empty";
-		if constexpr (SI::isMap) return E2S(CD::ki(n.key()), CD::mi(n.mapped())); else return E2S(n.value().k, n.value().id);
+		if constexpr (SI::isMap) return E2S(CD::ki(n.key()), CD::mi(n.mapped())); else if constexpr (SI::intSet) return E2S(n.value(), 0); else return E2S(n.value().k, n.value().id);
 	}
 	auto emplaceKV(C& x, int k, int v) {
 		if constexpr (SI::ty == 1) { std::string ks = SK(k), ms = SM(v); return x.emplace(ks.c_str(), ms.c_str()); }   // key and mapped built in place from const char*
+		else if constexpr (SI::intSet) return x.emplace(k);
 		else return x.emplace(k, v);
 	}
 	auto emplaceHintKV(C& x, typename C::const_iterator h, int k, int v) {
 		if constexpr (SI::ty == 1) { std::string ks = SK(k), ms = SM(v); return x.emplace_hint(h, ks.c_str(), ms.c_str()); }
+		else if constexpr (SI::intSet) return x.emplace_hint(h, k);
 		else return x.emplace_hint(h, k, v);
 	}
 	template<class F> size_t eraseIf(C& x, F pred) {
@@ -221,8 +241,8 @@ template<Shape S, bool OPEN, int AK> struct Runner {
 				if constexpr (SI::isMulti) { auto it = x.emplace(std::piecewise_construct, std::forward_as_tuple(k), std::forward_as_tuple(v)); out << pos(x, it); }
 				else { auto r = x.emplace(std::piecewise_construct, std::forward_as_tuple(k), std::forward_as_tuple(v)); out << pos(x, r.first) << "," << r.second; }
 			} else {
-				if constexpr (SI::isMulti) { auto it = x.emplace(KI(k, v)); out << pos(x, it); }
-				else { auto r = x.emplace(KI(k, v)); out << pos(x, r.first) << "," << r.second; }
+				if constexpr (SI::isMulti) { auto it = x.emplace(mk(k, v)); out << pos(x, it); }
+				else { auto r = x.emplace(mk(k, v)); out << pos(x, r.first) << "," << r.second; }
 			}
 		} else if (o == "insr" || o == "insl") { if constexpr (CD::copyable) {
 			std::vector<V> vals; for (size_t i = 2; i + 1 < w.size(); i += 2) vals.push_back(V(mk(I(w, i), I(w, i + 1))));
@@ -283,7 +303,7 @@ template<Shape S, bool OPEN, int AK> struct Runner {
 		} else if (o == "erf") {     // erase(find(k)); multimap: the pair (k,v) located inside equal_range(k)
 			int k = I(w, 2), v = I(w, 3);
 			auto r = x.equal_range(mkKey(k)); auto it = r.first; bool found = false;
-			for (; it != r.second; ++it) { if constexpr (S == UMMAP || S == OMMAP || S == OMSET) { if (es(*it) == E2S(k, v)) { found = true; break; } } else { found = true; break; } }
+			for (; it != r.second; ++it) { if constexpr (SI::isMulti) { if (es(*it) == E2S(k, v)) { found = true; break; } } else { found = true; break; } }
 			if (found) { x.erase(it); out << "ok"; } else out << "none";
 		} else if (o == "erre") {    // erase(equal_range(k)) : whole key
 			auto r = x.equal_range(mkKey(I(w, 2)));
@@ -324,7 +344,7 @@ template<Shape S, bool OPEN, int AK> struct Runner {
 				else { auto r = d.insert(std::move(n)); out << pos(d, r.position) << "," << r.inserted << "," << nodeStr(r.node); } }
 		} else if (o == "xmut") { if constexpr (SI::hasNodes) {   // node round trip with the key changed through the handle: n = c.extract(k); n.key() = k2; d.insert(move(n))
 				C& d = *c[I(w, 2) & 1]; auto n = x.extract(mkKey(I(w, 3))); out << nodeStr(n) << ">";
-				if (!n.empty()) { if constexpr (SI::isMap) n.key() = CD::K(I(w, 4)); else n.value() = KI(I(w, 4), n.value().id); }
+				if (!n.empty()) { if constexpr (SI::isMap) n.key() = CD::K(I(w, 4)); else if constexpr (SI::intSet) n.value() = I(w, 4); else n.value() = KI(I(w, 4), n.value().id); }
 				if constexpr (SI::isMulti) { auto it = d.insert(std::move(n)); out << pos(d, it); }
 				else { auto r = d.insert(std::move(n)); out << pos(d, r.position) << "," << r.inserted << "," << nodeStr(r.node); } }
 		} else if (o == "erloop") {   // the std idiom with a TRAVERSABLE iterator: for (it = begin(); it != end(); ) it = pred ? erase(it) : ++it
@@ -346,6 +366,35 @@ template<Shape S, bool OPEN, int AK> struct Runner {
 				if (o == "mrgm") x.merge(t); else t.merge(x);
 				out << "[";  bool first = true; for (auto it = t.begin(); it != t.end(); ++it) { out << (first ? "" : ",") << es(*it); first = false; } out << "]"; }
 		} else if (o == "merge") { if constexpr (SI::hasNodes) { C& d = *c[I(w, 2) & 1]; if (&d != &x) x.merge(d); out << "-"; }
+		} else if (o == "fill") {   // n insertions with keys base + i*step (crosses the growth / split thresholds of the nested container)
+			int n = I(w, 2), base = I(w, 3), step = I(w, 4), v0 = I(w, 5); size_t ins = 0;
+			for (int i = 0; i < n; ++i) { if constexpr (SI::isMulti) { x.insert(mk(base + i * step, v0 + i)); ++ins; } else ins += x.insert(mk(base + i * step, v0 + i)).second; }
+			out << ins << "/" << x.size();
+		} else if (o == "rdump") {   // reverse traversal
+			if constexpr (SI::isOrdered) { out << "["; bool f = true; for (auto it = x.rbegin(); it != x.rend(); ++it) { out << (f ? "" : ",") << es(*it); f = false; } out << "]"; }
+		} else if (o == "rsvu" || o == "rhs") {   // reserve / rehash: no observable effect on the contents; load factor stays within bounds
+			if constexpr (!SI::isOrdered && !SI::isUMM) { if (o == "rsvu") x.reserve(size_t(I(w, 2))); else x.rehash(size_t(I(w, 2)));
+				out << int(!(x.load_factor() > x.max_load_factor() + 1e-6f)); }   // (an empty momo container has bucket_count() == 0: not part of the shared contract)
+		} else if (o == "emp0") {   // emplace() with no arguments: value-initialised element
+			if constexpr (SI::isMap && !SI::isMulti && SI::ty == 0) { auto r = x.emplace(); out << pos(x, r.first) << "," << r.second; }
+		} else if (o == "kfn") {   // observers: key_comp / value_comp / hash_function / key_eq
+			int a = I(w, 2), b = I(w, 3);
+			if constexpr (SI::isOrdered) out << int(x.key_comp()(mkKey(a), mkKey(b))) << int(x.value_comp()(mk(a, 1), mk(b, 2)));
+			else out << int(x.key_eq()(mkKey(a), mkKey(b))) << int(x.hash_function()(mkKey(a)) == x.hash_function()(mkKey(a)));
+		} else if (o == "mvca" || o == "cpca") {   // allocator-extended move / copy construction (pvCreateSet / pvCreateMap: element-wise when allocators differ)
+			int ci = I(w, 1) & 1, di = I(w, 2) & 1, nid = I(w, 3);
+			if (ci != di && (o == "mvca" || CD::copyable)) {
+				int idd = AllocInfo<A>::id(c[di]->get_allocator());
+				std::unique_ptr<C> t;
+				if (o == "mvca") t.reset(new C(std::move(*c[di]), AllocInfo<A>::make(nid)));
+				else { if constexpr (CD::copyable) t.reset(new C(static_cast<const C&>(*c[di]), AllocInfo<A>::make(nid))); }
+				c[ci] = std::move(t); if (o == "mvca") c[di].reset(create(idd, hashMode)); }
+			out << "a" << AllocInfo<A>::id(c[ci]->get_allocator());
+		} else if (o == "movq") {   // move-assign, then QUERY the moved-from source (size / empty / begin==end / clear) before it is replaced
+			int di = I(w, 2) & 1; C& d = *c[di];
+			if (&d != &x) { int idd = AllocInfo<A>::id(d.get_allocator()); x = std::move(d);
+				out << d.size() << int(d.empty()) << int(d.begin() == d.end()); d.clear(); out << d.size(); c[di].reset(create(idd, hashMode)); } else out << "self";
+			out << "a" << AllocInfo<A>::id(c[I(w, 1) & 1]->get_allocator());
 		} else if (o == "clr") { x.clear(); out << "-";
 		} else if (o == "swap" || o == "swp2") {
 			if (!AllocInfo<A>::cs && AllocInfo<A>::id(c[0]->get_allocator()) != AllocInfo<A>::id(c[1]->get_allocator())) out << "skip";
@@ -389,38 +438,47 @@ template<Shape S, bool OPEN, int AK> struct Runner {
 
 #define IDX(e) ([&] { auto it_ = (e); return it_ - x.begin(); }())
 // ------------------------------------------------------------------ vector runner
-template<int AK> struct VecRunner {
-	typedef typename Cont<VEC, false, AK>::type C; typedef typename C::allocator_type A;
+template<class T> struct VCodec;
+template<> struct VCodec<int> { static int mk(int v) { return v; } static int pr(int v) { return v; } };
+template<> struct VCodec<std::string> { static std::string mk(int v) { return SM(v); } static int pr(const std::string& s) { return s.empty() ? -1 : SMi(s); } };   // "" (value-initialised) prints as -1: it sorts before every generated value (all >= 0)
+#ifdef IMPL_MOMO
+template<int AK, class T> struct VecCont { typedef momo::stdish::vector<T, typename PickAlloc<AK, T>::type> type; };
+#else
+template<int AK, class T> struct VecCont { typedef std::vector<T, typename PickAlloc<AK, T>::type> type; };
+#endif
+template<int AK, class T = int> struct VecRunner {
+	typedef typename VecCont<AK, T>::type C; typedef typename C::allocator_type A; typedef VCodec<T> VC;
+	static T MV(int v) { return VC::mk(v); }
 	std::unique_ptr<C> c[2]; std::ostringstream out;
 	static C* create(int id) { return new C(AllocInfo<A>::make(id)); }
-	std::string dump(const C& x) { std::string s = "["; for (size_t i = 0; i < x.size(); ++i) s += (i ? "," : "") + std::to_string(x[i]); return s + "]"; }
+	std::string dump(const C& x) { std::string s = "["; for (size_t i = 0; i < x.size(); ++i) s += (i ? "," : "") + std::to_string(VC::pr(x[i])); return s + "]"; }
 	void op(const Words& w) {
 		const std::string& o = w[0]; C& x = *c[I(w, 1) & 1]; size_t n = x.size();
 		auto at = [&x](int p) { return x.begin() + p; };
-		if (o == "pb") { int v = I(w, 2); x.push_back(v); out << "-"; }
-		else if (o == "pbr") { x.push_back(I(w, 2)); out << "-"; }
-		else if (o == "eb") { out << x.emplace_back(I(w, 2)); }
-		else if (o == "insv") { size_t p = size_t(I(w, 2)); if (p <= n) { int v = I(w, 3); out << IDX(x.insert(at(p), v)); } else out << "skip"; }
-		else if (o == "empv") { size_t p = size_t(I(w, 2)); if (p <= n) out << IDX(x.emplace(at(p), I(w, 3))); else out << "skip"; }
-		else if (o == "insn") { size_t p = size_t(I(w, 2)); if (p <= n) out << IDX(x.insert(at(p), size_t(I(w, 3)), I(w, 4))); else out << "skip"; }
-		else if (o == "insrv" || o == "inslv") { size_t p = size_t(I(w, 2)); std::vector<int> v; for (size_t i = 3; i < w.size(); ++i) v.push_back(I(w, i));
+		if (o == "pb") { const T v = MV(I(w, 2)); x.push_back(v); out << "-"; }
+		else if (o == "pbr") { x.push_back(MV(I(w, 2))); out << "-"; }
+		else if (o == "eb") { out << VC::pr(x.emplace_back(MV(I(w, 2)))); }
+		else if (o == "insv") { size_t p = size_t(I(w, 2)); if (p <= n) { const T v = MV(I(w, 3)); out << IDX(x.insert(at(p), v)); } else out << "skip"; }
+		else if (o == "empv") { size_t p = size_t(I(w, 2)); if (p <= n) out << IDX(x.emplace(at(p), MV(I(w, 3)))); else out << "skip"; }
+		else if (o == "insn") { size_t p = size_t(I(w, 2)); if (p <= n) out << IDX(x.insert(at(p), size_t(I(w, 3)), MV(I(w, 4)))); else out << "skip"; }
+		else if (o == "insrv" || o == "inslv") { size_t p = size_t(I(w, 2)); std::vector<T> v; for (size_t i = 3; i < w.size(); ++i) v.push_back(MV(I(w, i)));
 			if (p <= n) { if (o == "insrv") out << IDX(x.insert(at(p), v.begin(), v.end()));
-				else switch (v.size()) { case 0: out << IDX(x.insert(at(p), std::initializer_list<int>{})); break; case 1: out << IDX(x.insert(at(p), { v[0] })); break;
+				else switch (v.size()) { case 0: out << IDX(x.insert(at(p), std::initializer_list<T>{})); break; case 1: out << IDX(x.insert(at(p), { v[0] })); break;
 					case 2: out << IDX(x.insert(at(p), { v[0], v[1] })); break; default: out << IDX(x.insert(at(p), { v[0], v[1], v[2] })); break; } } else out << "skip"; }
 		else if (o == "insself") { size_t p = size_t(I(w, 2)), q = size_t(I(w, 3)); if (p <= n && q < n) out << IDX(x.insert(at(p), x[q])); else out << "skip"; }   // value aliasing an element
 		else if (o == "erv") { size_t p = size_t(I(w, 2)); if (p < n) out << IDX(x.erase(at(p))); else out << "skip"; }
 		else if (o == "errv") { size_t i = size_t(I(w, 2)), j = size_t(I(w, 3)); if (i <= j && j <= n) out << IDX(x.erase(at(i), at(j))); else out << "skip"; }
 		else if (o == "pop") { if (n > 0) { x.pop_back(); out << "-"; } else out << "skip"; }
 		else if (o == "rsz") { x.resize(size_t(I(w, 2))); out << "-"; }
-		else if (o == "rszv") { x.resize(size_t(I(w, 2)), I(w, 3)); out << "-"; }
-		else if (o == "asg") { x.assign(size_t(I(w, 2)), I(w, 3)); out << "-"; }
-		else if (o == "asgr" || o == "asgl") { std::vector<int> v; for (size_t i = 2; i < w.size(); ++i) v.push_back(I(w, i));
-			if (o == "asgr") x.assign(v.begin(), v.end()); else switch (v.size()) { case 0: x.assign(std::initializer_list<int>{}); break; case 1: x.assign({ v[0] }); break; case 2: x.assign({ v[0], v[1] }); break; default: x.assign({ v[0], v[1], v[2] }); break; }
+		else if (o == "rszv") { x.resize(size_t(I(w, 2)), MV(I(w, 3))); out << "-"; }
+		else if (o == "asg") { x.assign(size_t(I(w, 2)), MV(I(w, 3))); out << "-"; }
+		else if (o == "asgr" || o == "asgl") { std::vector<T> v; for (size_t i = 2; i < w.size(); ++i) v.push_back(MV(I(w, i)));
+			if (o == "asgr") x.assign(v.begin(), v.end()); else switch (v.size()) { case 0: x.assign(std::initializer_list<T>{}); break; case 1: x.assign({ v[0] }); break; case 2: x.assign({ v[0], v[1] }); break; default: x.assign({ v[0], v[1], v[2] }); break; }
 			out << "-"; }
-		else if (o == "atv") { try { out << x.at(size_t(I(w, 2))); } catch (const std::out_of_range&) { out << "oor"; } }
-		else if (o == "idxv") { size_t p = size_t(I(w, 2)); if (p < n) out << x[p]; else out << "skip"; }
-		else if (o == "setv") { size_t p = size_t(I(w, 2)); if (p < n) { x[p] = I(w, 3); out << "-"; } else out << "skip"; }
-		else if (o == "fb") { if (n > 0) out << x.front() << "," << x.back() << "," << *x.data(); else out << "skip"; }
+		else if (o == "atv") { try { out << VC::pr(x.at(size_t(I(w, 2)))); } catch (const std::out_of_range&) { out << "oor"; } }
+		else if (o == "idxv") { size_t p = size_t(I(w, 2)); if (p < n) out << VC::pr(x[p]); else out << "skip"; }
+		else if (o == "setv") { size_t p = size_t(I(w, 2)); if (p < n) { x[p] = MV(I(w, 3)); out << "-"; } else out << "skip"; }
+		else if (o == "fb") { if (n > 0) out << VC::pr(x.front()) << "," << VC::pr(x.back()) << "," << VC::pr(*x.data()); else out << "skip"; }
 		else if (o == "rsv") { x.reserve(size_t(I(w, 2))); out << int(x.capacity() >= size_t(I(w, 2))); }
 		else if (o == "shr") { x.shrink_to_fit(); out << int(x.capacity() >= x.size()); }
 		else if (o == "clr") { x.clear(); out << "-"; }
@@ -432,8 +490,18 @@ template<int AK> struct VecRunner {
 		else if (o == "mov") { int di = I(w, 2) & 1; C& d = *c[di]; if (&d != &x) { int idd = AllocInfo<A>::id(d.get_allocator()); x = std::move(d); c[di].reset(create(idd)); } out << "a" << AllocInfo<A>::id(c[I(w, 1) & 1]->get_allocator()); }
 		else if (o == "cpc") { int ci = I(w, 1) & 1; C& d = *c[I(w, 2) & 1]; if (&d != &x) { std::unique_ptr<C> t(new C(d)); c[ci] = std::move(t); } out << "a" << AllocInfo<A>::id(c[ci]->get_allocator()); }
 		else if (o == "mvc") { int ci = I(w, 1) & 1, di = I(w, 2) & 1; if (ci != di) { int idd = AllocInfo<A>::id(c[di]->get_allocator()); std::unique_ptr<C> t(new C(std::move(*c[di]))); c[ci] = std::move(t); c[di].reset(create(idd)); } out << "a" << AllocInfo<A>::id(c[ci]->get_allocator()); }
-		else if (o == "asl") { std::vector<int> v; for (size_t i = 2; i < w.size(); ++i) v.push_back(I(w, i));
-			switch (v.size()) { case 0: x = std::initializer_list<int>{}; break; case 1: x = { v[0] }; break; case 2: x = { v[0], v[1] }; break; default: x = { v[0], v[1], v[2] }; break; } out << "-"; }
+		else if (o == "asl") { std::vector<T> v; for (size_t i = 2; i < w.size(); ++i) v.push_back(MV(I(w, i)));
+			switch (v.size()) { case 0: x = std::initializer_list<T>{}; break; case 1: x = { v[0] }; break; case 2: x = { v[0], v[1] }; break; default: x = { v[0], v[1], v[2] }; break; } out << "-"; }
+		else if (o == "fillv") { int cnt = I(w, 2), v0 = I(w, 3); for (int i = 0; i < cnt; ++i) x.push_back(MV(v0 + i)); out << x.size(); }   // crosses the capacity growth steps
+		else if (o == "rdump") { out << "["; bool f = true; for (auto it = x.rbegin(); it != x.rend(); ++it) { out << (f ? "" : ",") << VC::pr(*it); f = false; } out << "]"; }
+		else if (o == "ctor") {   // constructors: 0 (n) 1 (n, value) 2 (first, last) 3 init-list 4 (copy, alloc) 5 (move, alloc)
+			int ci = I(w, 1) & 1, kind = I(w, 2), aid = AllocInfo<A>::id(c[ci]->get_allocator()); std::unique_ptr<C> t; std::vector<T> v; for (size_t i = 4; i < w.size(); ++i) v.push_back(MV(I(w, i)));
+			switch (kind) { case 0: t.reset(new C(size_t(I(w, 3)), AllocInfo<A>::make(aid))); break; case 1: t.reset(new C(size_t(I(w, 3)), MV(I(w, 4)), AllocInfo<A>::make(aid))); break;
+				case 2: t.reset(new C(v.begin(), v.end(), AllocInfo<A>::make(aid))); break;
+				case 3: if (v.size() >= 2) t.reset(new C({ v[0], v[1] }, AllocInfo<A>::make(aid))); else t.reset(new C(std::initializer_list<T>{}, AllocInfo<A>::make(aid))); break;
+				case 4: t.reset(new C(static_cast<const C&>(*c[1 - ci]), AllocInfo<A>::make(I(w, 3)))); break;
+				default: { int idd = AllocInfo<A>::id(c[1 - ci]->get_allocator()); t.reset(new C(std::move(*c[1 - ci]), AllocInfo<A>::make(I(w, 3)))); c[1 - ci].reset(create(idd)); } break; }
+			c[ci] = std::move(t); out << "a" << AllocInfo<A>::id(c[ci]->get_allocator()); }
 		else if (o == "sz") { out << x.size() << "," << int(x.empty()); }
 		else if (o == "dump") { out << dump(x); }
 		else out << "?";
@@ -454,9 +522,9 @@ template<int AK> struct VecRunner {
 template<Shape S, bool OPEN> static std::string runWE(int hm, const std::vector<std::pair<int, int>>& elems, int fpos, int ftrav, int lpos, int ltrav, bool orderOnly, const std::vector<std::pair<int, int>>& expectOrder, bool loopMode = false) {
 	typedef Runner<S, OPEN, 0> R; typedef typename R::C C;
 	std::unique_ptr<C> x(R::create(0, hm));
-	for (auto& e : elems) { if constexpr (S == UMMAP) x->emplace(e.first, e.second); else x->insert(R::mk(e.first, e.second)); }
+	for (auto& e : elems) { if constexpr (S == UMMAP || S == FUMMAP) x->emplace(e.first, e.second); else x->insert(R::mk(e.first, e.second)); }
 	std::vector<std::pair<int, int>> order;
-	for (auto it = x->begin(); it != x->end(); ++it) { if constexpr (S == USET) order.emplace_back((*it).k, (*it).id); else order.emplace_back((*it).first, (*it).second); }
+	for (auto it = x->begin(); it != x->end(); ++it) { if constexpr (S == USET) order.emplace_back((*it).k, (*it).id); else if constexpr (S == FUSET) order.emplace_back(*it, 0); else order.emplace_back((*it).first, (*it).second); }
 	std::ostringstream out;
 	if (orderOnly) { for (size_t i = 0; i < order.size(); ++i) out << (i ? " " : "") << E2S(order[i].first, order[i].second); return out.str(); }
 	if (order != expectOrder) return "order-mismatch";
@@ -548,24 +616,85 @@ static std::string runPBS(int n, int mode, int extraCap) {
 template<Shape S, bool OPEN> static std::string runAssoc(int, const std::vector<Words>& ops, int idA, int idB, int hm) {
 	Runner<S, OPEN, 0> r; return r.run(ops, idA, idB, hm);
 }
-template<Shape S, bool OPEN> static std::string runAssocA(int ak, const std::vector<Words>& ops, int idA, int idB, int hm) {
+#ifdef ALL_ALLOCS
+static const bool allAllocs = true;
+#else
+static const bool allAllocs = false;
+#endif
+// MASK: bit k set = allocator kind k instantiated in the quick tier (thorough tier: group 9 adds a second complementary pair per class)
+template<Shape S, bool OPEN, int MASK> static std::string runAssocA(int ak, const std::vector<Words>& ops, int idA, int idB, int hm) {
 	switch (ak) {
-	case 0: { Runner<S, OPEN, 0> r; return r.run(ops, idA, idB, hm); }
-	case 1: { Runner<S, OPEN, 1> r; return r.run(ops, idA, idB, hm); }
-	case 2: { Runner<S, OPEN, 2> r; return r.run(ops, idA, idB, hm); }
-	case 3: { Runner<S, OPEN, 3> r; return r.run(ops, idA, idB, hm); }
-	case 4: { Runner<S, OPEN, 4> r; return r.run(ops, idA, idB, hm); }
+	case 1: if constexpr (((MASK >> 1) & 1) != 0 || allAllocs) { Runner<S, OPEN, 1> r; return r.run(ops, idA, idB, hm); } break;
+	case 2: if constexpr (((MASK >> 2) & 1) != 0 || allAllocs) { Runner<S, OPEN, 2> r; return r.run(ops, idA, idB, hm); } break;
+	case 3: if constexpr (((MASK >> 3) & 1) != 0 || allAllocs) { Runner<S, OPEN, 3> r; return r.run(ops, idA, idB, hm); } break;
+	case 4: if constexpr (((MASK >> 4) & 1) != 0 || allAllocs) { Runner<S, OPEN, 4> r; return r.run(ops, idA, idB, hm); } break;
+	case 5: if constexpr (((MASK >> 5) & 1) != 0 || allAllocs) { Runner<S, OPEN, 5> r; return r.run(ops, idA, idB, hm); } break;
+	case 6: if constexpr (((MASK >> 6) & 1) != 0 || allAllocs) { Runner<S, OPEN, 6> r; return r.run(ops, idA, idB, hm); } break;
+	case 7: if constexpr (((MASK >> 7) & 1) != 0 || allAllocs) { Runner<S, OPEN, 7> r; return r.run(ops, idA, idB, hm); } break;
+	case 8: if constexpr (((MASK >> 8) & 1) != 0 || allAllocs) { Runner<S, OPEN, 8> r; return r.run(ops, idA, idB, hm); } break;
+	default: break; }
+	return "nokind";
+}
+template<class T> static std::string runVecT(int ak, const std::vector<Words>& ops, int idA, int idB) {
+	switch (ak) {
+	case 0: { VecRunner<0, T> r; return r.run(ops, idA, idB); }
+	case 1: { VecRunner<1, T> r; return r.run(ops, idA, idB); }
+	case 2: { VecRunner<2, T> r; return r.run(ops, idA, idB); }
+	case 3: { VecRunner<3, T> r; return r.run(ops, idA, idB); }
+	case 4: { VecRunner<4, T> r; return r.run(ops, idA, idB); }
+	case 5: { VecRunner<5, T> r; return r.run(ops, idA, idB); }
+	case 6: { VecRunner<6, T> r; return r.run(ops, idA, idB); }
+	case 7: { VecRunner<7, T> r; return r.run(ops, idA, idB); }
+	case 8: { VecRunner<8, T> r; return r.run(ops, idA, idB); }
 	default: return "nokind"; }
 }
-static std::string runVec(int ak, const std::vector<Words>& ops, int idA, int idB) {
-	switch (ak) {
-	case 0: { VecRunner<0> r; return r.run(ops, idA, idB); }
-	case 1: { VecRunner<1> r; return r.run(ops, idA, idB); }
-	case 2: { VecRunner<2> r; return r.run(ops, idA, idB); }
-	case 3: { VecRunner<3> r; return r.run(ops, idA, idB); }
-	case 4: { VecRunner<4> r; return r.run(ops, idA, idB); }
-	default: return "nokind"; }
+
+// ------------------------------------------------------------------ which classes are really instantiated (checked by prop.py, and statically)
+#ifdef IMPL_MOMO
+template<class B> struct BK { static const int id = 0; };
+template<class IT, size_t M, class P, bool U> struct BK<momo::internal::BucketLimP4<IT, M, P, U>> { static const int id = U ? 11 : 10; };
+template<class IT, size_t M, bool U> struct BK<momo::internal::BucketOpen2N2<IT, M, U>> { static const int id = U ? 21 : 20; };
+template<class IT> struct BK<momo::internal::BucketOpen8<IT>> { static const int id = 30; };
+template<class HS> static const char* bucketName() { switch (BK<typename HS::Bucket>::id) { case 10: return "LimP4<hashCodePart=0>"; case 11: return "LimP4<hashCodePart=1>";
+	case 20: return "Open2N2<hashCodePart=0>"; case 21: return "Open2N2<hashCodePart=1>"; case 30: return "Open8"; default: return "?"; } }
+template<class C> struct NestedSet { typedef typename C::nested_container_type type; };                                   // unordered_set -> HashSet
+template<class C> struct NestedMapSet { typedef typename C::nested_container_type::HashSet type; };                       // unordered_map -> HashMap::HashSet
+template<class C> struct NestedMMapSet { typedef typename C::nested_container_type::HashMap::HashSet type; };             // unordered_multimap -> HashMultiMap::HashMap::HashSet
+#if GROUP == 1
+static_assert(BK<NestedSet<Cont<USET, false, 0>::type>::type::Bucket>::id == 11, "custom hash functor: LimP4 with hash-code parts");
+static_assert(BK<NestedSet<Cont<USET, true, 0>::type>::type::Bucket>::id == 21, "custom hash functor: the Open8 default falls back to Open2N2");
+static_assert(BK<NestedMapSet<Cont<UMAP, false, 0>::type>::type::Bucket>::id == 11, "");
+static_assert(BK<NestedMapSet<Cont<UMAP, true, 0>::type>::type::Bucket>::id == 21, "");
+#elif GROUP == 6
+static_assert(BK<NestedSet<Cont<FUSET, false, 0>::type>::type::Bucket>::id == 10, "default hash of int: LimP4 without hash-code parts");
+static_assert(BK<NestedSet<Cont<FUSET, true, 0>::type>::type::Bucket>::id == 30, "default hash of int, small item: really BucketOpen8");
+static_assert(BK<NestedMapSet<Cont<FUMAP, false, 0>::type>::type::Bucket>::id == 10, "");
+static_assert(BK<NestedMapSet<Cont<FUMAP, true, 0>::type>::type::Bucket>::id == 30, "");
+static_assert(BK<NestedMMapSet<Cont<FUMMAP, false, 0>::type>::type::Bucket>::id == 10, "");
+#elif GROUP == 5
+static_assert(!std::is_copy_constructible<MO>::value && std::is_nothrow_move_constructible<MO>::value, "move-only mapped type");
+static_assert(!std::is_copy_constructible<Cont<MOMAP, false, 0>::type::value_type>::value, "");
+#elif GROUP == 7
+static_assert(std::is_same<Cont<UMAP, false, 6>::type::allocator_type, SA<PII, true, false, false>>::value, "");
+static_assert(std::is_same<Cont<USET, false, 3>::type::nested_container_type::MemManager, momo::MemManagerStd<SA<KI, true, false, true>>>::value, "stateful allocator reaches the nested container");
+#endif
+static std::string typesLine() {
+	std::string r;
+#if GROUP == 1
+	r += std::string("uset=") + bucketName<NestedSet<Cont<USET, false, 0>::type>::type>() + " uset_o=" + bucketName<NestedSet<Cont<USET, true, 0>::type>::type>()
+		+ " umap=" + bucketName<NestedMapSet<Cont<UMAP, false, 0>::type>::type>() + " umap_o=" + bucketName<NestedMapSet<Cont<UMAP, true, 0>::type>::type>();
+#elif GROUP == 2
+	r += std::string("ummap=") + bucketName<NestedMMapSet<Cont<UMMAP, false, 0>::type>::type>() + " ummap_o=" + bucketName<NestedMMapSet<Cont<UMMAP, true, 0>::type>::type>();
+#elif GROUP == 5
+	r += std::string("sumap=") + bucketName<NestedMapSet<Cont<SUMAP, false, 0>::type>::type>() + " moumap=" + bucketName<NestedMapSet<Cont<MOUMAP, false, 0>::type>::type>();
+#elif GROUP == 6
+	r += std::string("usetf=") + bucketName<NestedSet<Cont<FUSET, false, 0>::type>::type>() + " usetf_o=" + bucketName<NestedSet<Cont<FUSET, true, 0>::type>::type>()
+		+ " umapf=" + bucketName<NestedMapSet<Cont<FUMAP, false, 0>::type>::type>() + " umapf_o=" + bucketName<NestedMapSet<Cont<FUMAP, true, 0>::type>::type>()
+		+ " ummapf=" + bucketName<NestedMMapSet<Cont<FUMMAP, false, 0>::type>::type>() + " ummapf_o=" + bucketName<NestedMMapSet<Cont<FUMMAP, true, 0>::type>::type>();
+#endif
+	return r.empty() ? "-" : r;
 }
+#endif
 
 int main()
 {
@@ -576,6 +705,7 @@ int main()
 		if (segs.empty()) { puts("?"); continue; }
 		Words head = segs[0]; std::string res = "nokind";
 #ifdef IMPL_MOMO
+		if (head[0] == "types") { puts(typesLine().c_str()); continue; }
 		if (head[0] == "we" || head[0] == "ord" || head[0] == "wl") {   // we|ord kind hm n k:v ... [/ fpos ftrav lpos ltrav]
 			std::string kind = head[1]; int hm = I(head, 2); std::vector<std::pair<int, int>> el; size_t i = 3;
 			for (; i < head.size() && head[i] != "/"; ++i) { int k = 0, v = 0; sscanf(head[i].c_str(), "%d:%d", &k, &v); el.emplace_back(k, v); }
@@ -589,6 +719,12 @@ int main()
 #elif GROUP == 2
 			if (kind == "ummap") res = runWE<UMMAP, false>(hm, el, a, b, c, d, oo, eo, head[0] == "wl");
 			else if (kind == "ummap_o") res = runWE<UMMAP, true>(hm, el, a, b, c, d, oo, eo, head[0] == "wl");
+#elif GROUP == 6
+			if (kind == "usetf") res = runWE<FUSET, false>(hm, el, a, b, c, d, oo, eo, head[0] == "wl");
+			else if (kind == "usetf_o") res = runWE<FUSET, true>(hm, el, a, b, c, d, oo, eo, head[0] == "wl");
+			else if (kind == "umapf_o") res = runWE<FUMAP, true>(hm, el, a, b, c, d, oo, eo, head[0] == "wl");
+			else if (kind == "ummapf") res = runWE<FUMMAP, false>(hm, el, a, b, c, d, oo, eo, head[0] == "wl");
+			else if (kind == "ummapf_o") res = runWE<FUMMAP, true>(hm, el, a, b, c, d, oo, eo, head[0] == "wl");
 #endif
 			puts(res.c_str()); continue;
 		}
@@ -601,25 +737,46 @@ int main()
 		std::string kind = head[0]; int ak = I(head, 1), idA = I(head, 2), idB = I(head, 3), hm = I(head, 4);
 		std::vector<Words> ops(segs.begin() + 1, segs.end());
 #if GROUP == 1
-		if (kind == "uset") res = runAssocA<USET, false>(ak, ops, idA, idB, hm);
+		if (kind == "uset") res = runAssoc<USET, false>(0, ops, idA, idB, hm);
 		else if (kind == "uset_o") res = runAssoc<USET, true>(0, ops, idA, idB, hm);
 		else if (kind == "umap") res = runAssoc<UMAP, false>(0, ops, idA, idB, hm);
 		else if (kind == "umap_o") res = runAssoc<UMAP, true>(0, ops, idA, idB, hm);
 #elif GROUP == 2
-		if (kind == "ummap") res = runAssocA<UMMAP, false>(ak, ops, idA, idB, hm);
+		if (kind == "ummap") res = runAssoc<UMMAP, false>(0, ops, idA, idB, hm);
 		else if (kind == "ummap_o") res = runAssoc<UMMAP, true>(0, ops, idA, idB, hm);
-		else if (kind == "vec") res = runVec(ak, ops, idA, idB);
+		else if (kind == "vec") res = runVecT<int>(ak, ops, idA, idB);
+		else if (kind == "svec") res = runVecT<std::string>(ak == 0 ? 0 : 3, ops, idA, idB);
 #elif GROUP == 3
 		if (kind == "set") res = runAssoc<OSET, false>(0, ops, idA, idB, hm);
-		else if (kind == "mset") res = runAssocA<OMSET, false>(ak, ops, idA, idB, hm);
+		else if (kind == "mset") res = runAssoc<OMSET, false>(0, ops, idA, idB, hm);
+#elif GROUP == 4
+		if (kind == "map") res = runAssoc<OMAP, false>(0, ops, idA, idB, hm);
+		else if (kind == "mmap") res = runAssoc<OMMAP, false>(0, ops, idA, idB, hm);
 #elif GROUP == 5
 		if (kind == "smap") res = runAssoc<SMAP, false>(0, ops, idA, idB, hm);
 		else if (kind == "sumap") res = runAssoc<SUMAP, false>(0, ops, idA, idB, hm);
 		else if (kind == "momap") res = runAssoc<MOMAP, false>(0, ops, idA, idB, hm);
 		else if (kind == "moumap") res = runAssoc<MOUMAP, false>(0, ops, idA, idB, hm);
-#elif GROUP == 4
-		if (kind == "map") res = runAssocA<OMAP, false>(ak, ops, idA, idB, hm);
-		else if (kind == "mmap") res = runAssoc<OMMAP, false>(0, ops, idA, idB, hm);
+#elif GROUP == 6
+		if (kind == "usetf") res = runAssoc<FUSET, false>(0, ops, idA, idB, hm);
+		else if (kind == "usetf_o") res = runAssoc<FUSET, true>(0, ops, idA, idB, hm);
+		else if (kind == "umapf") res = runAssoc<FUMAP, false>(0, ops, idA, idB, hm);
+		else if (kind == "umapf_o") res = runAssoc<FUMAP, true>(0, ops, idA, idB, hm);
+		else if (kind == "ummapf") res = runAssoc<FUMMAP, false>(0, ops, idA, idB, hm);
+		else if (kind == "ummapf_o") res = runAssoc<FUMMAP, true>(0, ops, idA, idB, hm);
+#elif GROUP == 7
+		if (kind == "uset") res = runAssocA<USET, false, (1 << 1) | (1 << 2)>(ak, ops, idA, idB, hm);
+		else if (kind == "umap") res = runAssocA<UMAP, false, (1 << 6) | (1 << 7)>(ak, ops, idA, idB, hm);
+		else if (kind == "ummap") res = runAssocA<UMMAP, false, (1 << 3) | (1 << 4)>(ak, ops, idA, idB, hm);
+#elif GROUP == 8
+		if (kind == "mset") res = runAssocA<OMSET, false, (1 << 5) | (1 << 8)>(ak, ops, idA, idB, hm);
+		else if (kind == "map") res = runAssocA<OMAP, false, (1 << 1) | (1 << 2)>(ak, ops, idA, idB, hm);
+#elif GROUP == 9   // thorough tier: a second complementary pair of allocator kinds per wrapper class
+		if (kind == "uset") res = runAssocA<USET, false, (1 << 3) | (1 << 4)>(ak, ops, idA, idB, hm);
+		else if (kind == "umap") res = runAssocA<UMAP, false, (1 << 5) | (1 << 8)>(ak, ops, idA, idB, hm);
+		else if (kind == "ummap") res = runAssocA<UMMAP, false, (1 << 1) | (1 << 2)>(ak, ops, idA, idB, hm);
+		else if (kind == "mset") res = runAssocA<OMSET, false, (1 << 6) | (1 << 7)>(ak, ops, idA, idB, hm);
+		else if (kind == "map") res = runAssocA<OMAP, false, (1 << 3) | (1 << 4)>(ak, ops, idA, idB, hm);
 #endif
 		puts(res.c_str());
 	}
